@@ -727,7 +727,7 @@ func GenCase(r *common.Rng) Case {
 // sections whose sizes straddle the powers of two (code + data = 2^k-1, 2^k, 2^k+1).
 func GenExtCase(r *common.Rng) Case {
 	sel := r.Intn(8)
-	if RomsizeWithData && sel < 6 && r.Chance(1, 4) {
+	if sel < 6 && r.Chance(1, 4) {
 		sel = 6 // (the ROM / RAM sizing cases below)
 	}
 	switch sel {
@@ -806,7 +806,7 @@ func GenExtCase(r *common.Rng) Case {
 		}
 		b.WriteString("%endsection\n")
 		cp += ", romdata:datao"
-		withRomsize := RomsizeWithData && !noLit && r.Chance(3, 4)
+		withRomsize := !noLit && r.Chance(3, 4)
 		if withRomsize {
 			// an explicit ROM depth next to the data section: too small (the tool must refuse or the machine must still hold
 			// code + data), exact, or generous
